@@ -22,7 +22,8 @@ func init() { All["C12"] = Spec{"exploration", runC12} }
 
 // respSpec describes one crafted server response.
 type respSpec struct {
-	hc, ic  int // header batch count, number of items
+	mixed   []respSpec // when set: one spec per item (hc/ic taken from the outer spec)
+	hc, ic  int        // header batch count, number of items
 	op      int // 0 same, 1 another implemented, 2 unregistered, 3 absent
 	status  uint32
 	reason  int // 0 absent, 1 ItemNotFound, 2 GeneralFailure, 3 PermissionDenied, 4 unnamed
@@ -31,6 +32,13 @@ type respSpec struct {
 }
 
 func (r respSpec) String() string {
+	if len(r.mixed) > 0 {
+		var parts []string
+		for i, m := range r.mixed {
+			parts = append(parts, fmt.Sprintf("item%d{%s}", i, m.String()))
+		}
+		return fmt.Sprintf("header-count=%d ", r.hc) + strings.Join(parts, " ")
+	}
 	return fmt.Sprintf("header-count=%d items=%d op=%s status=%d reason=%s payload=%s message=%q", r.hc, r.ic,
 		[]string{"same", "another", "unregistered", "absent"}[r.op], r.status, []string{"absent", "ItemNotFound", "GeneralFailure", "PermissionDenied", "unnamed"}[r.reason],
 		[]string{"absent", "right-type", "other-operation-type", "opaque"}[r.payload], r.message)
@@ -50,7 +58,7 @@ func allRespSpecs() []respSpec {
 								if ic == 0 && (op != 0 || st != 0 || rs != 0 || pl != 0 || m != "") {
 									continue // nothing to vary without items
 								}
-								out = append(out, respSpec{hc, ic, op, st, rs, pl, m})
+								out = append(out, respSpec{hc: hc, ic: ic, op: op, status: st, reason: rs, payload: pl, message: m})
 							}
 						}
 					}
@@ -75,7 +83,12 @@ func respPayloadTree(op kmip.Operation) *refttlv.Node {
 // craft builds the response bytes for the requested operations (one item spec applied to every item).
 func craft(r respSpec, reqOps []kmip.Operation) []byte {
 	var items []*refttlv.Node
-	for i := 0; i < r.ic; i++ {
+	outer := r
+	for i := 0; i < outer.ic; i++ {
+		r := outer
+		if len(outer.mixed) > 0 {
+			r = outer.mixed[i]
+		}
 		reqOp := kmip.OperationActivate
 		if i < len(reqOps) {
 			reqOp = reqOps[i]
@@ -116,7 +129,7 @@ func craft(r respSpec, reqOps []kmip.Operation) []byte {
 	}
 	hdr := nStruct(tg("ResponseHeader"),
 		nStruct(tg("ProtocolVersion"), nInt(tg("ProtocolVersionMajor"), 1), nInt(tg("ProtocolVersionMinor"), 4)),
-		&refttlv.Node{Tag: tg("TimeStamp"), Type: refttlv.TDateTime, I: 1700000000}, nInt(tg("BatchCount"), int64(r.hc)))
+		&refttlv.Node{Tag: tg("TimeStamp"), Type: refttlv.TDateTime, I: 1700000000}, nInt(tg("BatchCount"), int64(outer.hc)))
 	return refttlv.Generate(nStruct(tg("ResponseMessage"), append([]*refttlv.Node{hdr}, items...)...))
 }
 
@@ -155,7 +168,13 @@ func newC12Client(negotiate bool, first *respSpec) (*c12client, error) {
 	return cc, nil
 }
 
+// failedItem marks a batch item that the client surfaced as an error.
+type failedItem struct{}
+
+func (failedItem) Operation() kmip.Operation { return 0 }
+
 type c12call struct {
+	perItem bool
 	name string
 	ops  []kmip.Operation
 	// run performs the call; returns the payloads it got as success (nil entries allowed) and the error
@@ -224,6 +243,22 @@ func c12Calls() []c12call {
 			}
 			return res.Unwrap()
 		}},
+		c12call{name: "Batch(items)", ops: []kmip.Operation{kmip.OperationActivate, kmip.OperationGet}, perItem: true, run: func(cl *kmipclient.Client) ([]kmip.OperationPayload, error) {
+			res, err := cl.Batch(context.Background(), &payloads.ActivateRequestPayload{UniqueIdentifier: "id"}, &payloads.GetRequestPayload{UniqueIdentifier: "id"})
+			if err != nil {
+				return nil, err
+			}
+			// what a caller sees item by item: an item is either an error or a success carrying a payload
+			out := make([]kmip.OperationPayload, len(res))
+			for i := range res {
+				if res[i].Err() != nil {
+					out[i] = failedItem{}
+				} else {
+					out[i] = res[i].ResponsePayload
+				}
+			}
+			return out, nil
+		}},
 		c12call{name: "BatchExec", ops: []kmip.Operation{kmip.OperationActivate, kmip.OperationGet}, run: func(cl *kmipclient.Client) ([]kmip.OperationPayload, error) {
 			res, err := cl.Activate("id").Then(func(c *kmipclient.Client) kmipclient.PayloadBuilder { return c.Get("id") }).ExecContext(context.Background())
 			if err != nil {
@@ -251,10 +286,28 @@ func runC12(c *vlib.Check) {
 		"through a stub installed as innermost middleware. distinct = distinct (call, response) pairs", len(calls)-4, len(specs))
 	c.Assumptions = []string{"'carries status, reason and message': the error text contains the registered name (or the number, for unregistered values) of the status and of the reason when present, and the message text",
 		"the carrying clause is only judged when counts match (header count = items = requested items)"}
+	// per-item call: every pair of item specs (reduced alphabet), so that a violating item can follow a failed one
+	var itemSpecs []respSpec
+	for _, st := range []uint32{0, 1, 2} {
+		for _, op := range []int{0, 1, 2} {
+			for _, pl := range []int{0, 1, 2} {
+				itemSpecs = append(itemSpecs, respSpec{op: op, status: st, payload: pl, reason: int(st)})
+			}
+		}
+	}
+	mixedStart := len(specs)
+	for _, a := range itemSpecs {
+		for _, b := range itemSpecs {
+			specs = append(specs, respSpec{hc: 2, ic: 2, mixed: []respSpec{a, b}})
+		}
+	}
 	type pair struct{ ci, si int }
 	var pairs []pair
 	for ci := range calls {
 		for si := range specs {
+			if si >= mixedStart && len(calls[ci].ops) != 2 {
+				continue
+			}
 			pairs = append(pairs, pair{ci, si})
 		}
 	}
@@ -274,7 +327,7 @@ func runC12(c *vlib.Check) {
 		}
 	})
 	// dial-time discovery
-	for si := range specs {
+	for si := range specs[:mixedStart] {
 		spec := specs[si]
 		label := "Dial(discovery) <- " + spec.String()
 		c.Eval([]byte(label), true)
@@ -298,6 +351,35 @@ func runC12(c *vlib.Check) {
 }
 
 func c12Judge(c *vlib.Check, call c12call, spec respSpec, run func() ([]kmip.OperationPayload, error), sample bool) {
+	if len(spec.mixed) > 0 && !call.perItem {
+		// aggregate view for calls that return one verdict: any failed item => failure expected
+		agg := spec.mixed[0]
+		for _, m := range spec.mixed {
+			if m.status != 0 {
+				agg = m
+			}
+		}
+		agg.hc, agg.ic = spec.hc, spec.ic
+		allSame := spec.mixed[0].String() == spec.mixed[1].String()
+		if !allSame {
+			// only "no panic" and "a failed item is not reported as overall success" are judged for mixed responses here
+			var pls []kmip.OperationPayload
+			var err error
+			label := call.name + " <- " + spec.String()
+			c.Eval([]byte(label), true)
+			rep := map[string]any{"kind": "response", "call": call.name, "response": spec.String(), "hex": hex.EncodeToString(craft(spec, call.ops))}
+			if pv, site := vlib.Catch(func() { pls, err = run() }); pv != nil {
+				c.Violation("panic:"+site+":"+short(classify(fmt.Sprint(pv)), 24), fmt.Sprintf("%s: the call panicked: %v", label, pv), rep)
+				return
+			}
+			_ = pls
+			if err == nil && agg.status != 0 {
+				c.Violation("failed-item-returned-as-success:"+call.name, fmt.Sprintf("%s: an item failed but the call reports success", label), rep)
+			}
+			return
+		}
+		spec = agg
+	}
 	label := call.name + " <- " + spec.String()
 	c.Eval([]byte(label), true)
 	if sample {
@@ -311,6 +393,38 @@ func c12Judge(c *vlib.Check, call c12call, spec respSpec, run func() ([]kmip.Ope
 		return
 	}
 	countsOK := spec.hc == len(call.ops) && spec.ic == len(call.ops)
+	if err == nil && call.perItem {
+		if spec.hc != len(call.ops) || spec.ic != len(call.ops) {
+			c.Violation("count-mismatch-accepted:"+call.name, fmt.Sprintf("%s: header count %d / %d items for %d requested items accepted", label, spec.hc, spec.ic, len(call.ops)), rep)
+			return
+		}
+		for i, p := range pls {
+			is := spec
+			if len(spec.mixed) > 0 {
+				is = spec.mixed[i]
+			}
+			if _, failed := p.(failedItem); failed {
+				if is.status == 0 {
+					c.Violation("success-item-surfaced-as-error:"+call.name, fmt.Sprintf("%s: item %d is a success on the wire", label, i), rep)
+				}
+				continue
+			}
+			if is.status != 0 {
+				c.Violation("failed-item-returned-as-success:"+call.name, fmt.Sprintf("%s: item %d has status %d but is surfaced as success", label, i, is.status), rep)
+				return
+			}
+			want := reflect.PointerTo(msg.PayloadTypes[call.ops[i]][1])
+			if p == nil || reflect.ValueOf(p).IsNil() {
+				c.Violation("nil-payload-as-success:"+call.name, fmt.Sprintf("%s: item %d is a success with a nil payload", label, i), rep)
+				return
+			}
+			if reflect.TypeOf(p) != want {
+				c.Violation("foreign-payload-as-success:"+call.name, fmt.Sprintf("%s: item %d returned %T as success, the requested operation's response type is %s", label, i, p, want), rep)
+				return
+			}
+		}
+		return
+	}
 	if err == nil {
 		if call.name == "Signer" {
 			return
